@@ -25,6 +25,12 @@ AxisIdentity(q2, b, s) ==
      M2(OrigP2(q2, b), b * k + t, b * s) = b * J2(q2, k, s) + 2 * t
 (* the documented molecule update is the inverse of OrigP2 *)
 AxisPosUpdate(q2, b) == BinnedP2FromOrig(OrigP2(q2, b), b) = b * q2
+(* binning composes: binning(b1) then binning(b2) is binning(b1 b2) - the same image length (the remainders dropped agree), the
+   same blocks (block k of the second binning is the union of b2 consecutive blocks of the first) and the same position shift
+   (p - (b1-1)/2 in original pixels, then - (b2-1)/2 in b1-pixels, is p - (b1 b2 - 1)/2) *)
+ChainLaw == \A n \in 1..40, b1 \in 1..4, b2 \in 1..4 :
+   /\ BinnedLen(BinnedLen(n, b1), b2) = BinnedLen(n, b1 * b2)
+   /\ \A p2 \in {0, 7, 18} : BinnedP2FromOrig(p2, b1) - b1 * (b2 - 1) = BinnedP2FromOrig(p2, b1 * b2)
 
 VARIABLES cfg, done
 Init == cfg \in Cases /\ done = FALSE
